@@ -73,7 +73,7 @@ class Jumbo
 public:
 
   Jumbo()
-    : ip_id_(0), buf_off_(0)
+    : ip_id_(0), buf_off_(0), assembling_(false)
   {
   }
 
@@ -87,11 +87,16 @@ private:
   uint16_t ip_id_;
   uint8_t  buf_[IP_LEN];
   uint16_t buf_off_;
+  bool assembling_; // fragments of ip_id_ are being gathered in buf_ (an IP identification of 0 is a valid one)
 }; 
 
 inline bool Jumbo::new_fragment(const uint8_t* pkt_data, size_t pkt_data_size, 
     uint16_t* udp_port, const uint8_t** udp_data, size_t* udp_data_len)
 {
+  // the frame must hold the ethernet header and the fixed part of the ip header
+  if (pkt_data_size < (14 + sizeof(struct iphdr)))
+    return false;
+
   // Is it an ip packet ?
   const uint16_t* eth_type = (const uint16_t*)(pkt_data + 12);
   if (ntohs(*eth_type) != 0x0800)
@@ -106,6 +111,11 @@ inline bool Jumbo::new_fragment(const uint8_t* pkt_data, size_t pkt_data_size,
   uint16_t ip_hdr_size = (ip_hdr->version & 0xf) * 4;
   uint16_t ip_len = ntohs(ip_hdr->tot_len);
 
+  // inconsistent lengths: header shorter than its fixed part, datagram shorter than its header,
+  // or datagram cut short by the capture
+  if ((ip_hdr_size < sizeof(struct iphdr)) || (ip_len < ip_hdr_size) || (pkt_data_size < ((size_t)14 + ip_len)))
+    return false;
+
   const uint8_t* ip_data = pkt_data + 14 + ip_hdr_size;
   uint16_t ip_data_len = ip_len - ip_hdr_size;
 
@@ -117,28 +127,37 @@ inline bool Jumbo::new_fragment(const uint8_t* pkt_data, size_t pkt_data_size,
 
 #define MORE_FRAGS(flags) ((flags & 0x01) != 0)
 
-  if (ip_id == ip_id_)
+  if ((frag_off == 0) && !MORE_FRAGS(frag_flags))
+  {
+    // non-fragment packet: deliver it at once. the datagram being assembled (if any) is not affected.
+    if (ip_data_len < UDP_HDR_LEN)
+      return false;
+
+    *udp_port = dst_port (ip_data);
+    *udp_data = ip_data + UDP_HDR_LEN;
+    *udp_data_len = ip_data_len - UDP_HDR_LEN;
+    return true;
+  }
+
+  if (assembling_ && (ip_id == ip_id_))
   {
     if (frag_off == buf_off_)
     {
+      if (((size_t)buf_off_ + ip_data_len) > 65535) // can not be a udp datagram: give it up
+      {
+        assembling_ = false;
+        return false;
+      }
+
       memcpy (buf_ + buf_off_, ip_data, ip_data_len);
       buf_off_ += ip_data_len;
 
       if (!MORE_FRAGS(frag_flags))
       {
-#if 0
-        printf ("--- end new packet. ip_id:0x%x, len:%d\n", ip_id_, buf_off_);
+        assembling_ = false;
 
-        for (uint16_t off = UDP_HDR_LEN, i = 0; off < buf_len(); off += 984, i++)
-        {
-          char title[32];
-          sprintf (title, "jumbo %d ", i);
-
-          hexdump (buf() + off, 32, title);
-        }
-#endif
-
-        ip_id_ = 0;
+        if (buf_off_ < UDP_HDR_LEN)
+          return false;
 
         *udp_port = dst_port (buf_);
         *udp_data = buf_ + UDP_HDR_LEN;
@@ -149,31 +168,13 @@ inline bool Jumbo::new_fragment(const uint8_t* pkt_data, size_t pkt_data_size,
   }
   else
   {
-    if (frag_off == 0)
+    if (frag_off == 0) // first fragment of a new datagram
     {
-      if (MORE_FRAGS(frag_flags))
-      {
-        ip_id_ = ip_id;
-        buf_off_ = 0;
-
-        memcpy (buf_ + buf_off_, ip_data, ip_data_len);
-        buf_off_ += ip_data_len;
-
-#if 0
-        printf ("+++ start packet 0x%x\n", ip_id_);
-#endif
-      }
-      else
-      {
-#if 0
-        printf ("+++ non-fragment packet 0x%x\n", ip_id);
-#endif
-
-        *udp_port = dst_port (ip_data);
-        *udp_data = ip_data + UDP_HDR_LEN;
-        *udp_data_len = ip_data_len - UDP_HDR_LEN;
-        return true;
-      }
+      assembling_ = true;
+      ip_id_ = ip_id;
+      buf_off_ = 0;
+      memcpy (buf_ + buf_off_, ip_data, ip_data_len);
+      buf_off_ += ip_data_len;
     }
   }
 
